@@ -506,6 +506,7 @@ func (c *Ctx) c12EvictLeast(b BK) {
 	}
 	nDel := 0
 	badAmt, badPrefix := false, false
+	reusedReported := false
 	nCollect := 0
 	if b.Sharded {
 		if _, ok := c.shardCoverage("R12.3", op, run.paths, false); !ok {
@@ -565,6 +566,18 @@ func (c *Ctx) c12EvictLeast(b BK) {
 		if !got.Equal(poly.Atom("len").Mul(poly.Atom("frac"))) || lenV == nil || lenV.Src == nil {
 			r.Bad("R12.2", op, "amount", c.Pos(p.RetPos), fmt.Sprintf("number of evicted entries is %s, documented is int(len(entries)·fraction)", got), shortTrace(p))
 			badAmt = true
+		}
+		// the candidates are those of this cycle only: the list they are collected into starts empty in every call (a buffer kept in
+		// the instance and re-used at full length carries the records of the previous cycle into the sort and the prefix)
+		if lenV != nil && !badAmt {
+			base := lenV.Src
+			for i := 0; base != nil && i < 64 && (base.Kind == pw.KAppend || base.Kind == pw.KHavoc); i++ {
+				base = base.Src
+			}
+			if base != nil && base.Kind == pw.KField && base.Field != nil && !reusedReported {
+				reusedReported = true
+				r.Bad("R12.3", op, "candidates-not-fresh", c.Pos(p.RetPos), "the eviction candidates are appended to a slice kept in the instance ("+base.Field.Name()+") without emptying it: records of the previous cycle are sorted in and use up the eviction budget", shortTrace(p))
+			}
 		}
 		// deletion loop: for i := 0; i < evictItems; i++ { delete entries[i] }
 		for _, g := range iterations(p) {
